@@ -163,3 +163,70 @@ func init() {
 
 var literalRe = regexp.MustCompile(`^[A-Za-z0-9_ ]*$`)
 
+
+func structFieldIndex(t types.Type, name string) int {
+	st, ok := t.Underlying().(*types.Struct)
+	if !ok {
+		return -1
+	}
+	for i := 0; i < st.NumFields(); i++ {
+		if st.Field(i).Name() == name {
+			return i
+		}
+	}
+	return -1
+}
+
+func init() {
+	// Elk error objects are class-tagged objects: the class is what obligations compare;
+	// instance-variable layout (class.IvarIndices) belongs to the class singletons that
+	// package init builds and is not modelled.
+	registerIntrinsic("github.com/elk-language/elk/value.NewError", func(ex *Exec, fr *Frame, fn *ssa.Function, a []Value, site ssa.Instruction) Value {
+		rt := fn.Signature.Results().At(0).Type().(*types.Pointer).Elem()
+		o := ex.newObject(rt, "elk-error")
+		st, _ := ex.memGet(o)
+		fs := append([]Value(nil), st.(*StructV).Fields...)
+		ci := structFieldIndex(rt, "class")
+		ii := structFieldIndex(rt, "instanceVariables")
+		if ci < 0 || ii < 0 {
+			ex.unsupported("value.Object layout changed")
+		}
+		fs[ci] = a[0]
+		ivt := rt.Underlying().(*types.Struct).Field(ii).Type()
+		elem := ivt.Underlying().(*types.Slice).Elem()
+		// message: Ref(String(msg)) built by the real constructor when cheap
+		var msg Value = Opaque{"error message"}
+		func() {
+			defer func() {
+				if r := recover(); r != nil {
+					if _, ok := r.(*pathAbort); !ok {
+						panic(r)
+					}
+				}
+			}()
+			pkg := fn.Pkg
+			if refFn := pkg.Func("Ref"); refFn != nil {
+				strT := pkg.Type("String")
+				if strT != nil {
+					msg = ex.callFunction(fr, refFn, []Value{IfaceV{T: strT.Type(), V: a[1]}}, nil, site)
+				}
+			}
+		}()
+		fs[ii] = ex.newSlice(elem, []Value{msg}, 1, "error ivars")
+		ex.memSet(o, &StructV{Fields: fs})
+		return Pointer{Obj: o}
+	})
+	registerIntrinsic("(*github.com/elk-language/elk/value.Class).PrintableName", func(ex *Exec, fr *Frame, fn *ssa.Function, a []Value, site ssa.Instruction) Value {
+		return ex.strConst("<class>")
+	})
+	registerIntrinsic("(*github.com/elk-language/elk/value.Object).Message", func(ex *Exec, fr *Frame, fn *ssa.Function, a []Value, site ssa.Instruction) Value {
+		p := a[0].(Pointer)
+		st := ex.load(p, "Message").(*StructV)
+		ii := structFieldIndex(p.Obj.Typ, "instanceVariables")
+		sl, ok := st.Fields[ii].(SliceV)
+		if !ok || sl.Len == 0 {
+			ex.unsupported("Object.Message on an object without modelled ivars")
+		}
+		return ex.sliceElems(sl)[0]
+	})
+}
